@@ -14,7 +14,7 @@ import (
 func init() { register("C19", runC19) }
 
 func runC19(c *Check, tier string) {
-	c.Decides = "every recursive or worklist traversal over the graph's adjacency lists descends into a node only on the 'never seen' branch of a per-node mark (set membership, three-colour map, in-degree counter reaching zero, or the IsSelected mark) and sets that mark on every path — so each node is expanded at most once and the work is bounded by nodes + edges, not by the number of paths; pairwise output-conflict checks enumerate pairs (quadratic), not paths."
+	c.Decides = "every recursive or worklist traversal over the graph's adjacency lists descends into a node only on the 'never seen' branch of a per-node mark (set membership, three-colour map, in-degree counter reaching zero, or the IsSelected mark) and sets that mark on every path — so each node is expanded at most once and the work is bounded by nodes + edges, not by the number of paths; pairwise output-conflict checks enumerate pairs (quadratic), not paths; the map that guards a descent is the map that is marked."
 	c.NotDec = "constant factors, actual running times, third-party code."
 	ruleTraversals(c, "R19a", false)
 }
